@@ -183,7 +183,9 @@ class OpError(Exception):
         self.msg = msg
 
 
-SCALARS = {'2': 2, 'm1': -1, 'half': 0.5, 'zero': 0, 'cplx': 1 + 2j}
+# (all factors are exactly representable and keep small-integer data exact in float32/complex64 as well,
+#  also under division: 1/(1+1j) = 0.5-0.5j)
+SCALARS = {'2': 2, 'm1': -1, 'half': 0.5, 'zero': 0, 'cplx': 1 + 1j}
 
 
 # ------------------------------------------------------------------------------------------------ op table
@@ -1032,7 +1034,7 @@ class _Squeeze(Base):
             for k in ones[:2]:
                 if a.rank > 1:
                     yield ('squeeze_addleg', i, 'squeeze', k)
-            if a.rank <= 3:
+            if a.rank <= 3 and 'triv' not in a.labels:
                 for ax in sorted({0, a.rank}):
                     for qc in (1, -1):
                         yield ('squeeze_addleg', i, 'add_trivial_leg', [ax, qc])
@@ -1312,7 +1314,8 @@ class _Unary(Base):
     def instances(self, shs, tier):
         for i, a in enumerate(shs):
             yield ('unary_blockwise', i, 'real', False)
-            yield ('unary_blockwise', i, 'imag', False)
+            if np.iscomplexobj(a.dense):  # (np.imag of a real array is a read-only array: a numpy matter)
+                yield ('unary_blockwise', i, 'imag', False)
             yield ('unary_blockwise', i, 'square', True)
             yield ('unary_blockwise', i, 'conj', True)
 
@@ -1322,7 +1325,8 @@ class _Unary(Base):
         if p[3]:
             r = a.iunary_blockwise(f)
             return dict(kind='inplace', target=p[1], ret=r)
-        return dict(kind='new', arr=a.unary_blockwise(f))
+        # documented: "makes a shallow copy first"; np.real / np.imag return views of the operand's blocks
+        return dict(kind='new', arr=a.unary_blockwise(f), share=p[1])
 
     def model(self, shs, p):
         a = shs[p[1]]
